@@ -1001,3 +1001,26 @@ var CMCall = []func(int) int{func(a int) int { return (&CM{v: 1}).M0(a) }, func(
 var CMName = []string{"M0", "M1", "M2", "M3", "M4", "M5", "M6", "M7", "M8", "M9", "M10", "M11"}
 
 func CMOrig(k, a int) int { return 1 + a*(k+2) + 9000 + k }
+
+// ---- one instantiation of a generic function per mocker (all of different GC shape, so each has a body of its own)
+
+//go:noinline
+func GenHot[T any]() int {
+	var z T
+	_ = z
+	return genBase + pad
+}
+
+var genBase = 4400
+
+type genTarget struct {
+	Fn   interface{}
+	Call func() int
+	Orig int
+}
+
+var GenTargets = []genTarget{
+	{GenHot[int], GenHot[int], 4400}, {GenHot[string], GenHot[string], 4400}, {GenHot[[2]int], GenHot[[2]int], 4400}, {GenHot[float64], GenHot[float64], 4400},
+	{GenHot[int8], GenHot[int8], 4400}, {GenHot[uint16], GenHot[uint16], 4400}, {GenHot[[3]byte], GenHot[[3]byte], 4400}, {GenHot[struct{ a, b int }], GenHot[struct{ a, b int }], 4400},
+	{GenHot[[]int], GenHot[[]int], 4400}, {GenHot[complex128], GenHot[complex128], 4400}, {GenHot[int32], GenHot[int32], 4400}, {GenHot[[5]int64], GenHot[[5]int64], 4400},
+}
